@@ -278,6 +278,193 @@ theorem closed_proxy_not_waited_for (g : GrpcContract) (t0 wait : Nat) (addr : S
   obtain ⟨q, ⟨_, hq⟩, rfl⟩ := hp
   simpa using hq
 
+/-! ## 6. Listeners that are being started while shutdown begins
+
+Sentence 1 of the property ("after shutdown begins no listener accepts new connections") is about every listener
+the process has or gets, not only about the ones in the snapshot. `listeners_closed_first` covers the snapshot. A
+`ListenAndServe*` call registers either before the snapshot (then it is in it), or never (its address was busy: the one
+bind failed), or afterwards — and then nothing closes it. -/
+
+/-- a busy address yields an error and leaves the registry alone: no server exists, now or later -/
+theorem busy_address_never_registers (addr : String) (srv : Server) (reg : Registry) :
+    listenAndServe true addr srv reg = (reg, .bindError) := rfl
+
+/-- a free address registers at once -/
+theorem free_address_registers (addr : String) (srv : Server) (reg : Registry) :
+    listenAndServe false addr srv reg = (reg ++ [(addr, srv)], .registered) := rfl
+
+/-- every start that had registered by `t0` is in the snapshot `proxy.Shutdown` works on (and so is closed at `t0`
+by `listeners_closed_first`), in the order of the starts -/
+theorem snapshot_covers_registered (t0 : Nat) (starts : List Start) (s : Start) (r : Nat)
+    (hs : s ∈ starts) (hr : s.registersAt = some r) (hle : r ≤ t0) : (s.addr, s.srv) ∈ snapshot t0 starts := by
+  simp only [snapshot, List.mem_filterMap]
+  exact ⟨s, hs, by simp [hr, hle]⟩
+
+/-- **no_accept_after_shutdown_begins_partial.** Full statement (false — `late_registration_keeps_accepting`):
+for every list of starts, no start accepts at any tick `t ≥ t0`. Forced hypothesis `h`: no start registers after
+`t0`. It is tied to the source by `C18Facts.listen_path_does_not_wait` (one bind, no wait, no retry between the call
+and the registration), `refresher_stops_on_shutdown` / `no_listener_reappears` (the only caller that starts
+listeners at run time stops once shutdown has begun), and measured by the stream class `listener-start-pending`. -/
+theorem no_accept_after_shutdown_begins_partial (t0 : Nat) (starts : List Start)
+    (h : ∀ s ∈ starts, ∀ r, s.registersAt = some r → r ≤ t0) :
+    ∀ s ∈ starts, ∀ t, t0 ≤ t → startAccepts t0 s t = false := by
+  intro s hs t ht
+  unfold startAccepts
+  cases hr : s.registersAt with
+  | none => rfl
+  | some r =>
+    have := h s hs r hr
+    simp only [this, if_true, decide_eq_false_iff_not, not_and, Nat.not_lt]
+    intro _; exact ht
+
+/-- **Negation of the full statement, with witness.** A start that registers after the snapshot is not in it and
+accepts from then on, for ever: it sits in the fresh registry, which nothing shuts down. Concrete witness (replayed
+by `corpus/c18.shutdown.jsonl`, class `listener-started-after-shutdown-began`): shutdown at tick 1, registration at
+tick 81. -/
+theorem late_registration_keeps_accepting (t0 r : Nat) (hr : t0 < r) (s : Start) (hs : s.registersAt = some r) :
+    snapshot t0 [s] = [] ∧ ∀ t, r ≤ t → startAccepts t0 s t = true := by
+  have hn : ¬ r ≤ t0 := Nat.not_le.mpr hr
+  refine ⟨by simp [snapshot, hs, hn], ?_⟩
+  intro t ht
+  simp [startAccepts, hs, hn, ht]
+
+theorem no_accept_full_statement_fails :
+    ¬ ∀ (t0 : Nat) (starts : List Start), ∀ s ∈ starts, ∀ t, t0 ≤ t → startAccepts t0 s t = false := by
+  intro h
+  have := h 1 [{ addr := ":80", srv := .single { kind := .http, work := [] }, registersAt := some 81 }] _
+    (List.mem_singleton.mpr rfl) 100 (by decide)
+  simp [startAccepts] at this
+
+/-! ## 7. Websocket sessions (hijacked connections) and the end of the process
+
+`http.Server.Shutdown` does not know hijacked connections: it neither waits for them nor closes them, so the
+servers' fan-out (`shutdownReturn`) is blind to them (`hijacked_not_in_fanout`). In-process nobody cuts such a
+session — but the process ends when the exit handler returns, and that cuts whatever is open. `proxy.Shutdown` as a
+whole is `shutdownAll`: the fan-out joined with the wait for the websocket sessions (`WsContract`). -/
+
+/-- hijacked sessions do not delay a listener's own `Shutdown` at all -/
+theorem hijacked_not_in_fanout (g : GrpcContract) (t0 wait : Nat) (k : Kind) (work hj : List Time) :
+    leafReturn g t0 wait { kind := k, work := work, hijacked := hj } =
+    leafReturn g t0 wait { kind := k, work := work } := by
+  unfold leafReturn; rfl
+
+theorem wsReturn_bounded (w : WsContract) (t0 wait : Nat) (hj : List Time) :
+    tle (wsReturn w t0 wait hj) (some (t0 + wait)) = true := by
+  cases w with
+  | notWaitedFor => simp [wsReturn, tle]
+  | waitedFor => exact tmin_le_right _ _
+
+/-- **shutdown_all_bounded.** `proxy.Shutdown` as a whole — servers and websocket sessions — returns no later than
+`t0 + wait`, under either websocket contract, whatever is open (endless sessions included). -/
+theorem shutdown_all_bounded (w : WsContract) {g : GrpcContract} (h : DeadlineBounded g) (t0 wait : Nat)
+    (srvs : List Server) : tle (shutdownAll w g t0 wait srvs) (some (t0 + wait)) = true :=
+  tmax_le (shutdown_bounded h t0 wait srvs) (wsReturn_bounded w t0 wait _)
+
+theorem mem_allHijacked {srvs : List Server} {sv : Server} {l : Leaf} {e : Time}
+    (hs : sv ∈ srvs) (hl : l ∈ sv.leaves) (he : e ∈ l.hijacked) : e ∈ allHijacked srvs := by
+  simp only [allHijacked, List.mem_flatMap]
+  exact ⟨sv, hs, l, hl, he⟩
+
+/-- **shutdown_all_drains.** With the repaired contract `proxy.Shutdown` does not return before *any* in-flight
+work that ends within the wait has ended: requests, tunnels and streams known to their server (`l.work`) and
+websocket sessions (`l.hijacked`) alike — `l.allWork`, on any registered server, single or composite. -/
+theorem shutdown_all_drains (g : GrpcContract) (t0 wait : Nat) (srvs : List Server) (sv : Server) (l : Leaf) (e : Time)
+    (hs : sv ∈ srvs) (hl : l ∈ sv.leaves) (he : e ∈ l.allWork) (h : tle e (some (t0 + wait)) = true) :
+    tle e (shutdownAll .waitedFor g t0 wait srvs) = true := by
+  simp only [Leaf.allWork, List.mem_append] at he
+  cases he with
+  | inl hw => exact tle_trans (shutdown_drains g t0 wait srvs sv l e hs hl hw h) (le_tmax_left _ _)
+  | inr hh =>
+    have h1 : tle e (wsReturn .waitedFor t0 wait (allHijacked srvs)) = true :=
+      le_tmin (le_drain (mem_allHijacked hs hl hh)) h
+    exact tle_trans h1 (le_tmax_right _ _)
+
+/-- **process_exit_bounded.** The process is gone no later than grace + wait after the handler started, whatever is
+open (bounded contracts). -/
+theorem process_exit_bounded (w : WsContract) {g : GrpcContract} (h : DeadlineBounded g) (s grace wait : Nat)
+    (srvs : List Server) : tle (processExit w g s grace wait srvs) (some (s + grace + wait)) = true :=
+  shutdown_all_bounded w h (s + grace) wait srvs
+
+/-- **process_completes_inflight_work.** The property's second sentence at the level of the process: every piece of
+work in flight through any listener — websocket sessions included — whose natural end is within the wait completes
+before the process ends. -/
+theorem process_completes_inflight_work (g : GrpcContract) (s grace wait : Nat) (srvs : List Server)
+    (sv : Server) (l : Leaf) (e : Time) (hs : sv ∈ srvs) (hl : l ∈ sv.leaves) (he : e ∈ l.allWork)
+    (h : tle e (some (s + grace + wait)) = true) :
+    processFate (processExit .waitedFor g s grace wait srvs) e = .completed := by
+  have := shutdown_all_drains g (s + grace) wait srvs sv l e hs hl he h
+  simp [processFate, processExit, this]
+
+/-- **D31, negation for the shipped contract, with witness** (replayed on the real binary by line 5 of
+`corpus/c18.process.jsonl`, class `static+websocket+no-tcp-listener`): only http listeners, one websocket session that
+would end 100 ticks into a wait of 600 — `proxy.Shutdown` returns at once, the process ends, the session is cut. -/
+theorem shipped_ws_session_lost_at_exit :
+    let srvs := [Server.single { kind := .http, work := [], hijacked := [some 400] }]
+    processExit .notWaitedFor .stopsAtDeadline 0 300 600 srvs = some 300 ∧
+    tle (some 400) (some (0 + 300 + 600)) = true ∧
+    processFate (processExit .notWaitedFor .stopsAtDeadline 0 300 600 srvs) (some 400) = .cut := by decide
+
+theorem shipped_process_loses_inflight_work :
+    ¬ ∀ (g : GrpcContract) (s grace wait : Nat) (srvs : List Server) (sv : Server) (l : Leaf) (e : Time),
+        sv ∈ srvs → l ∈ sv.leaves → e ∈ l.allWork → tle e (some (s + grace + wait)) = true →
+        processFate (processExit .notWaitedFor g s grace wait srvs) e = .completed := by
+  intro h
+  have := h .stopsAtDeadline 0 300 600 [Server.single { kind := .http, work := [], hijacked := [some 400] }]
+    (Server.single { kind := .http, work := [], hijacked := [some 400] }) { kind := .http, work := [], hijacked := [some 400] }
+    (some 400) (List.mem_singleton.mpr rfl) (List.mem_singleton.mpr rfl) (by simp [Leaf.allWork]) (by decide)
+  revert this
+  decide
+
+/-- why the defect stayed invisible next to a tcp listener: `tcp.Server.Shutdown` takes the whole wait, so the
+process outlives every session that ends within it, under either contract -/
+theorem ws_completes_next_to_tcp (w : WsContract) {g : GrpcContract} (hb : DeadlineBounded g) (s grace wait : Nat)
+    (srvs : List Server) (work : List Time) (hs : Server.single { kind := .tcp, work := work } ∈ srvs)
+    (e : Time) (h : tle e (some (s + grace + wait)) = true) :
+    processFate (processExit w g s grace wait srvs) e = .completed := by
+  have h1 := tcp_listener_takes_the_whole_wait hb (s + grace) wait srvs work hs
+  have h2 : tle (some (s + grace + wait)) (processExit w g s grace wait srvs) = true := by
+    simp only [processExit, shutdownAll, h1]
+    exact le_tmax_left _ _
+  simp [processFate, tle_trans h h2]
+
+/-- without websocket sessions the two contracts coincide with the servers' fan-out -/
+theorem shutdown_all_without_ws (w : WsContract) (g : GrpcContract) (t0 wait : Nat) (srvs : List Server)
+    (h : allHijacked srvs = []) : shutdownAll w g t0 wait srvs = shutdownReturn g t0 wait srvs := by
+  have h0 : tle (some t0) (shutdownReturn g t0 wait srvs) = true := by
+    cases maxReturn_attained t0 (srvs.map (serverReturn g t0 wait)) with
+    | inl hh => simp only [shutdownReturn, hh]; exact tle_refl _
+    | inr hh =>
+      cases hm : maxReturn t0 (srvs.map (serverReturn g t0 wait)) with
+      | none => simp [shutdownReturn, hm, tle]
+      | some m =>
+        -- the maximum is never before t0
+        have : ∀ rs : List Time, ∀ m, maxReturn t0 rs = some m → t0 ≤ m := by
+          intro rs
+          induction rs with
+          | nil => intro m hm; simp [maxReturn] at hm; omega
+          | cons r rs ih =>
+            intro m hm
+            cases r with
+            | none => simp [maxReturn, tmax] at hm
+            | some a =>
+              cases hr : maxReturn t0 rs with
+              | none => simp [maxReturn, hr, tmax] at hm
+              | some b =>
+                simp [maxReturn, hr, tmax] at hm
+                have := ih b hr
+                omega
+        simp only [shutdownReturn, hm, tle, decide_eq_true_eq]
+        exact this _ m hm
+  have hw : wsReturn w t0 wait [] = some t0 := by
+    cases w <;> simp [wsReturn, drain, tmin]
+  simp only [shutdownAll, h, hw]
+  cases hr : shutdownReturn g t0 wait srvs with
+  | none => rfl
+  | some r =>
+    rw [hr] at h0
+    simp only [tle, decide_eq_true_eq] at h0
+    simp [tmax, Nat.max_eq_left h0]
+
 /-! ## Non-vacuity -/
 
 /-- a mixed registry: http with a short and an endless request, a tcp tunnel that never ends, a gRPC server
@@ -310,5 +497,28 @@ example : DeadlineBounded .stopsAtDeadline := repaired_contract_bounded
 example : shutdownCalled .stopsAtDeadline 100 100 600 exampleServers = some 700 := by decide
 example : shutdownCalled .stopsAtDeadline 100 10100 600 exampleServers = some 10700 := by decide
 example : (closeProxy ":7000" [(":7000", .single { kind := .tcp, work := [none] }), (":80", .single { kind := .http, work := [] })]).length = 1 := by decide
+
+-- starts: one registered long before, one whose address is busy, one that registers late
+def exampleStarts : List Start :=
+  [ { addr := ":80", srv := .single { kind := .http, work := [some 120] }, registersAt := some 0 },
+    { addr := ":81", srv := .single { kind := .tcp, work := [] }, registersAt := none },
+    { addr := ":82", srv := .single { kind := .grpc, work := [] }, registersAt := some 150 } ]
+example : (snapshot 100 exampleStarts).map (·.1) = [":80"] := by decide
+example : exampleStarts.map (fun s => startAccepts 100 s 50) = [true, false, false] ∧
+          exampleStarts.map (fun s => startAccepts 100 s 100) = [false, false, false] ∧
+          exampleStarts.map (fun s => startAccepts 100 s 200) = [false, false, true] := by decide
+-- the hypothesis of `no_accept_after_shutdown_begins_partial` holds of the first two
+example : ∀ s ∈ exampleStarts.take 2, ∀ r, s.registersAt = some r → r ≤ 100 := by decide
+-- process level: tracked short work completes, the process ends at the deadline next to an endless tunnel
+example : processExit .waitedFor .stopsAtDeadline 0 300 600 exampleServers = some 900 := by decide
+example : processFate (processExit .waitedFor .stopsAtDeadline 0 300 600 exampleServers) (some 420) = .completed ∧
+          processFate (processExit .waitedFor .stopsAtDeadline 0 300 600 exampleServers) none = .cut := by decide
+-- websocket sessions on http listeners only: repaired, the process outlives the one that ends within the wait and
+-- ends at the deadline because of the endless one; as shipped it ended with the grace period
+def wsOnly : List Server := [.single { kind := .http, work := [], hijacked := [some 400, none] }]
+example : processExit .waitedFor .stopsAtDeadline 0 300 600 wsOnly = some 900 ∧
+          processExit .notWaitedFor .stopsAtDeadline 0 300 600 wsOnly = some 300 ∧
+          processFate (processExit .waitedFor .stopsAtDeadline 0 300 600 wsOnly) (some 400) = .completed := by decide
+example : shutdownAll .waitedFor .stopsAtDeadline 0 600 [.single { kind := .http, work := [some 50], hijacked := [some 100] }] = some 100 := by decide
 
 end Fabio.Props.C18
